@@ -93,7 +93,7 @@ def main():
         })
     manifest = {
         "version": 1,
-        "setup_cmd": "cd /verif/harness && CARGO_NET_OFFLINE=true cargo build --release --offline",
+        "setup_cmd": "cd /verif/harness && CARGO_NET_OFFLINE=true cargo build --release --offline && CARGO_NET_OFFLINE=true cargo build --profile nda --offline",
         "hooks": {
             "guard": "cargo feature `verif-hooks` (owning_iovec, sliding_deque, hcobs, vouched_time)",
             "enable": "the harness crate depends on the /repo crates by path with features = [\"verif-hooks\"]; ./check rebuilds it before every run",
